@@ -215,6 +215,14 @@ def np_triu_indices(ex, args, kwargs, node, st):
     n = ex.need_num(args[0], node)
     if kwargs.get('k', 0) != 1:
         raise Unsupported('triu_indices with k != 1')
+    if is_cint(n) and ex.mode == 'run':
+        pairs = [(r, c) for r in range(n) for c in range(r + 1, n)]
+        out = []
+        for w in (0, 1):
+            oid = st.new_oid('N')
+            st.heap[oid] = ArrObj('int', items=[p[w] for p in pairs], length=len(pairs), pykind='ndarray', dtype='int')
+            out.append(Ref(oid))
+        return tuple(out)
     ln = SPECS['LenFull'].z3(ex, st, n)
     R = fresh('triu_rows', z3.ArraySort(IntS, IntS))
     C = fresh('triu_cols', z3.ArraySort(IntS, IntS))
